@@ -82,6 +82,23 @@ def check(m, run):
 
 # ---------------------------------------------------------------------------------------------- IV8
 def reads_through_getters(m, run):
+    """cold-cache reads are decided by driving the three views through the real accessors with empty caches (WS5); the rule that looks
+    for direct reads of a cached view outside its filling getter corroborates (a refactoring may move the fill into a helper)"""
+    from .. import skel_drivers as _sd
+    n0 = len(run.obs)
+    try:
+        _sd.ws5(m, run, rule='WS5.views-agree-through-the-real-setters')
+    except AnalysisError as ex:
+        run.error(str(ex))
+    ok = len(run.obs) > n0 and all(o.ok for o in run.obs[n0:])
+    # (the obligations of WS5 are recorded once per check: drop the duplicates when setters() has already run it)
+    seen = {(o.rule, o.key) for o in run.obs[:n0]}
+    run.obs[n0:] = [o for o in run.obs[n0:] if (o.rule, o.key) not in seen]
+    with run.corroborating(ok, 'WS5', rules=('IV8.view-read-through-its-getter',)):
+        _reads_through_getters_syntactic(m, run)
+
+
+def _reads_through_getters_syntactic(m, run):
     """the unweighted-points / weights views are filled lazily by their getters: a cached view is read only inside the getter of the
     same name (after its fill test).  Any other method must go through `self.ctrlpts` / `self.weights`; reading `self._cache[...]`
     directly sees the empty list whenever nobody has read the view since the last edit."""
